@@ -21,6 +21,10 @@ THEOREMS = [
 HARNESSES = [
     dict(name="route", pkg="pkg/object/httpserver", files=["harness/httpserver/zz_verif_c01_test.go"],
          run="TestVerifC01", groups=["route"], timeout=600),
+    # thorough tier: exhaustive small-scope enumeration (1764 rule sets x 24 requests), ignores VERIF_N
+    dict(name="exh", pkg="pkg/object/httpserver",
+         files=["harness/httpserver/zz_verif_c01_test.go", "harness/httpserver/zz_verif_c01_exh_test.go"],
+         run="TestVerifC01Exh", groups=["route"], timeout=900, thorough_only=True, share=0.0),
 ]
 GROUPS = {"route": "check_route"}
 EXPLAIN = {"route": "explain_route"}
@@ -153,12 +157,11 @@ def shrink_candidates(inp, grp):
     """smaller inputs: fewer requests, then fewer rules / paths / header conditions / filters"""
     import copy
     reqs = inp.get("reqs") or []
-    if grp == "route":
-        for k in range(len(reqs)):
-            if len(reqs) > 1:
-                cand = copy.deepcopy(inp)
-                cand["reqs"] = reqs[:k] + reqs[k + 1:]
-                yield cand
+    if grp == "route" and len(reqs) > 1:
+        for k in range(len(reqs)):       # one request alone
+            cand = copy.deepcopy(inp)
+            cand["reqs"] = [reqs[k]]
+            yield cand
     rules = inp["server"].get("rules") or []
     for ri in range(len(rules)):
         if len(rules) > 1:
@@ -189,5 +192,4 @@ def shrink_candidates(inp, grp):
 
 
 def signature(case, result):
-    outs = case["obs"].get("outs") or []
-    return (case["grp"], tuple(sorted({("panic" if o.get("panic") else o.get("status")) for o in outs if "status" in o})))
+    return case["grp"]          # one shrunk report per run is enough
